@@ -219,6 +219,7 @@ cLUMemInit(fact_t fact, void *work, int_t lwork, int m, int n, int_t annz,
     if ( fact != SamePattern_SameRowPerm ) {
 	/* Guess for L\U factors */
 	nzumax = nzlumax = nzlmax = fill_ratio * annz;
+	SLU_VERIF_CAPACITY(&nzlumax, &nzumax, &nzlmax); /* verification builds may start the growable arrays at other capacities */
 	//nzlmax = SUPERLU_MAX(1, fill_ratio/4.) * annz;
 
 	if ( lwork == -1 ) {
